@@ -3,8 +3,10 @@ import ChibiVerif.Spec.LineSpec
 
 /-! line protocol of `drv_c18 lineno` (bytes and names are lower-case hex strings, `-` = empty; ids are small numbers):
   file <id> <name> <bytes>      enter a file (a `tokenize_file` call): → `file <id> no=<file_no> len=<text length> lf=<'\n' in text> text=<hex of the text tokenize() numbers, after convert_universal_chars>`
-  dir <id> <off> <N> [<name>]   `#line`-family directive whose `#` is at file offset off: → `dir line=<line_no of the directive> delta=<new line_delta> name=<display_name>`
-  tok <id> <off>                ordinary token at file offset off, now: → `tok line=<final line_no> name=<filename> fileno=<file_no> pos=<offset in text> byte=<byte there|-> raw=<line_no before delta> phys=<Spec.physLine> pend=<Spec.pendingSplices> start=<0|1>`
+  dir <id> <off> <end> <N> [<name>]   `#line`-family directive whose first operand token (`start` in read_line_marker) is at file offset off and whose
+                                terminating newline is at file offset end; N is the value of the (macro-expanded) operand: a LineMarker is pushed
+                                → `dir line=<line_no of start> delta=<new line_delta> name=<display_name> markers=<number of markers of the file>`
+  tok <id> <off>                ordinary token at file offset off, passed on now (line_marker_at its own line): → `tok line=<final line_no> name=<filename> fileno=<file_no> pos=<offset in text> byte=<byte there|-> raw=<line_no before delta> phys=<Spec.physLine> pend=<Spec.pendingSplices> start=<0|1> pline=<Spec.presumedLineAt over the directives given so far, by physical line> pfile=<Spec.presumedFileAt>`
   linemac <id> <off>            `__LINE__` whose outermost origin token is at off: → `line <value>`
   filemac <id> <off>            `__FILE__` likewise: → `file <display name>`
   synth <id> <off>              token synthesised (##, #, builtin) from the template token at off: → `synth line=<final line_no> fileno=<file_no> name=<file name>`
@@ -13,7 +15,7 @@ import ChibiVerif.Spec.LineSpec
   errat <id> <off>              error_at's recount at the image of off → `errat <n> shown=<hex of the source line verror_at prints>`
   table                         → `table <no>:<name> …`   (the `.file` directives)
   reset                         → `reset` -/
-namespace ChibiVerif.Driver
+namespace ChibiVerif.Driver.LineNoCmd
 open ChibiVerif.LineNo
 
 structure LnFile where
@@ -21,6 +23,7 @@ structure LnFile where
   idx : Nat            -- index in `input_files`
   bytes : List Nat
   text : List Nat
+  sdirs : List Spec.Line.Dir := []   -- the directives of the file for the SPEC: physical line where the directive ends, operand, name
 
 structure LnState where
   files : Files := []
@@ -63,20 +66,22 @@ def lnStep (st : LnState) (ws : List String) : LnState × String :=
     | some id, some nm, some bytes =>
       let (fs, idx) := enterFile st.files (strOfBytes nm)
       let text := tokenizerText bytes
-      ({ files := fs, ents := ⟨id, idx, bytes, text⟩ :: st.ents },
+      ({ files := fs, ents := ⟨id, idx, bytes, text, []⟩ :: st.ents },
        s!"file {id} no={(getFile fs (.input idx)).fileNo} len={text.length} lf={countLF text} text={hexOf text}")
     | _, _, _ => (st, "bad-op")
-  | "dir" :: id :: off :: n :: rest =>
-    match id.toNat?, off.toNat?, n.toInt?, (match rest with | [] => some none | [h] => (parseHex h).map some | _ => none) with
-    | some id, some off, some n, some nm =>
+  | "dir" :: id :: off :: eoff :: n :: rest =>
+    match id.toNat?, off.toNat?, eoff.toNat?, n.toInt?, (match rest with | [] => some none | [h] => (parseHex h).map some | _ => none) with
+    | some id, some off, some eoff, some n, some nm =>
       match findEnt st id with
       | none => (st, "bad-id")
       | some e =>
         let f := curFile st e
         let ln := lineNoOf e.text (finalPos e.bytes off)
         let f' := readLineMarker f ln n (nm.map strOfBytes)
-        ({ st with files := st.files.set e.idx f' }, s!"dir line={ln} delta={f'.lineDelta} name={hexStr f'.displayName}")
-    | _, _, _, _ => (st, "bad-op")
+        let e' := { e with sdirs := e.sdirs ++ [⟨Spec.Line.physLine e.bytes eoff, n, nm.map strOfBytes⟩] }
+        ({ st with files := st.files.set e.idx f', ents := st.ents.map (fun x => if x.id == id then e' else x) },
+         s!"dir line={ln} delta={f'.lineDelta} name={hexStr f'.displayName} markers={f'.markers.length}")
+    | _, _, _, _, _ => (st, "bad-op")
   | "addln" :: id :: offs =>
     match id.toNat?, offs.mapM (·.toNat?) with
     | some id, some offs =>
@@ -110,7 +115,7 @@ def lnStep (st : LnState) (ws : List String) : LnState × String :=
           match runFile e.text f [.tok pos] with
           | [.tok line name] =>
             let byte := match e.text[pos]? with | some b => toString b | none => "-"
-            (st, s!"tok line={line} name={hexStr name} fileno={f.fileNo} pos={pos} byte={byte} raw={lineNoOf e.text pos} phys={Spec.Line.physLine e.bytes off} pend={Spec.Line.pendingSplices e.bytes off} start={if tokenStart e.bytes off then 1 else 0}")
+            (st, s!"tok line={line} name={hexStr name} fileno={f.fileNo} pos={pos} byte={byte} raw={lineNoOf e.text pos} phys={Spec.Line.physLine e.bytes off} pend={Spec.Line.pendingSplices e.bytes off} start={if tokenStart e.bytes off then 1 else 0} pline={Spec.Line.presumedLineAt e.sdirs (Spec.Line.physLine e.bytes off)} pfile={hexStr (Spec.Line.presumedFileAt f.name e.sdirs (Spec.Line.physLine e.bytes off))}")
           | _ => (st, "internal")
         | "linemac" =>
           match runFile e.text f [.lineMac pos] with
@@ -142,4 +147,4 @@ partial def lnLoop (h : IO.FS.Stream) (st : LnState) : IO UInt32 := do
 
 def linenoMain : IO UInt32 := do lnLoop (← IO.getStdin) {}
 
-end ChibiVerif.Driver
+end ChibiVerif.Driver.LineNoCmd
